@@ -978,10 +978,20 @@ def run_case(ctx):
         ctx.describe(f"{cls}: {describe_gate(g)} bind[{mk}] {describe_map(m)}", is_nontrivial(params, m, used))
         as_op = rng.random() < 0.5
         obj = g(*GC.rand_qubits(rng, g.num_qubits, g.num_qubits + 1)) if as_op else g
+        if cls == "custom" and _cheap_matrix(g):
+            try:
+                g.matrix  # observed by the custom-matrix-factory monitor
+            except Exception:
+                pass
         b = _bind(obj, m)
         if b is not None:
             list(b.free_symbols)
             list(obj.free_symbols)
+            if cls == "custom" and _cheap_matrix(g):
+                try:
+                    (b.gate if as_op else b).matrix
+                except Exception:
+                    pass
             bg = b.gate if as_op else b
             left = set().union(*[_atoms(own_sub(p, m)) for p in params]) if params else set()
             ctx.check("absent-untouched", left == gate_symbols(bg), lambda: f"{describe_gate(g)}.bind({describe_map(m)}) "
